@@ -82,7 +82,9 @@ def derivations(py) -> List[Tuple[str, Set[str], ast.AST, str]]:
             for a in st.value.args:
                 srcs |= selfattrs(a)
             out.append((tgt, srcs or {tgt}, st, st.value.func.attr))
-        elif isinstance(st, ast.For) and "setattr(self, key, [value])" in ast.unparse(st):
+        elif isinstance(st, ast.For) and any(isinstance(c, ast.Call) and call_name(c) == "setattr" and len(c.args) == 3
+                                             and ast.unparse(c.args[0]) == "self" and isinstance(c.args[2], ast.List)
+                                             and len(c.args[2].elts) == 1 for c in ast.walk(st)):
             out.append(("<every List[...] field>", {"<every List[...] field>"}, st, "list-wrap"))
         elif isinstance(st, ast.If) and "extra_filetypes" in ast.unparse(st.test):
             out.append(("extra_filetypes", {"extra_filetypes"}, st, "list->dict"))
@@ -283,9 +285,21 @@ def r3_rejections_name_option(ctx, rep):
 def r5_unknown_keys(ctx, rep):
     py = ctx.py
     m = py.func("settings.convert_types_from_metapreprocessor")
-    t = ast.unparse(m)
-    ok = "except KeyError" in t and "warn(" in t and "keys_to_drop" in t
-    rep.ob("markdown metadata: unknown keys warned and dropped", ok, "", py.nloc(m))
+    # the unknown-key path (KeyError handler of the table lookup, or an explicit `not in` test) warns, does not raise, and
+    # the key does not stay in the dict that is handed to the constructor
+    unknown = [h.body for h in ast.walk(m) if isinstance(h, ast.ExceptHandler) and "KeyError" in astq.handler_types(h)]
+    unknown += [i.body for i in ast.walk(m) if isinstance(i, ast.If) and any(isinstance(c, ast.Compare) and isinstance(c.ops[0], ast.NotIn)
+                                                                             for c in ast.walk(i.test))]
+    def warns(b):
+        return any(isinstance(c, ast.Call) and call_name(c).split(".")[-1] in ("warn", "warning") for st in b for c in ast.walk(st))
+    def raises(b):
+        return any(isinstance(r, ast.Raise) for st in b for r in ast.walk(st))
+    removes = any((isinstance(c, ast.Call) and isinstance(c.func, ast.Attribute) and c.func.attr == "pop") or isinstance(c, ast.Delete)
+                  for c in ast.walk(m)) or any(isinstance(c, (ast.DictComp,)) for c in ast.walk(m))
+    ok = any(warns(b) and not raises(b) for b in unknown) and removes
+    rep.ob("markdown metadata: unknown keys warned and dropped", ok,
+           "the unknown-key path warns and the key is removed from the settings dict" if ok else
+           "convert_types_from_metapreprocessor no longer warns about and removes unknown keys", py.nloc(m))
     toml = py.func("settings.load_toml_settings")
     t = ast.unparse(toml)
     raw = re.search(r"ProjectSettings\(\*\*settings\['extra'\]\['ford'\]\)", t) is not None
@@ -349,7 +363,16 @@ def r6_precedence(ctx, rep):
     seq = [call_name(c) for st in ini.body for c in py.walk_calls(st)]
     ok = "load_settings" in seq and "parse_arguments" in seq and seq.index("load_settings") < seq.index("parse_arguments")
     rep.ob("file settings loaded before CLI merge", ok, "", py.nloc(ini))
-    ok = "os.path.dirname(args.project_file.name)" in ast.unparse(ini)
+    dir_ok = []
+    for c in py.walk_calls(ini):
+        if call_name(c) in ("load_settings", "parse_arguments"):
+            fdef = py.func(f"__init__.{call_name(c)}")
+            arg = astq.bind_args(c, fdef).get("directory")
+            alts = astq.expand_locals(arg, ini) if arg is not None else []
+            dir_ok.append(any("project_file" in ast.unparse(x) and any(
+                (isinstance(k, ast.Call) and call_name(k).split(".")[-1] == "dirname") or (isinstance(k, ast.Attribute) and k.attr == "parent")
+                for k in ast.walk(x)) for x in alts))
+    ok = len(dir_ok) >= 2 and all(dir_ok)
     rep.ob("paths are rooted at the project file's directory", ok,
            "directory = dirname(project_file.name) is handed to load_settings and normalise_paths", py.nloc(ini))
 
@@ -404,13 +427,27 @@ def r4_path_rooting(ctx, rep):
                    "value is rooted at the absolute project directory (or the package)" if rooted else
                    f"`self.{st.targets[0].attr} = {v}` stores the raw `directory` argument; the generic loop then joins it onto "
                    f"the project directory again: with `ford sub/proj.md` the path becomes <cwd>/sub/sub", py.nloc(st))
-    loop = [x for x in ast.walk(np) if isinstance(x, ast.For) and "asdict(self).items()" in ast.unparse(x.iter)]
-    ok = bool(loop) and "is_same_type(default_type, List[Path])" in ast.unparse(loop[0]) and \
-        "is_same_type(default_type, Path)" in ast.unparse(loop[0]) and "normalise_path(self.directory" in ast.unparse(loop[0])
+    # the generic loop over the fields: under `is_same_type(<type>, Path)` and under `is_same_type(<type>, List[Path])` the
+    # value is passed through normalise_path(self.directory, ...)
+    def normalised_under(type_text: str) -> bool:
+        for i in ast.walk(np):
+            if isinstance(i, ast.If) and any(isinstance(c, ast.Call) and call_name(c).split(".")[-1] == "is_same_type" and len(c.args) == 2
+                                             and ast.unparse(c.args[1]) == type_text for c in ast.walk(i.test)):
+                if any(isinstance(c, ast.Call) and call_name(c).split(".")[-1] == "normalise_path" and c.args
+                       and ast.unparse(c.args[0]) == "self.directory" for st in i.body for c in ast.walk(st)):
+                    return True
+        return False
+    ok = normalised_under("Path") and normalised_under("List[Path]")
     rep.ob("normalise_paths: every Path / List[Path] field is normalised against the project directory", ok, "", py.nloc(np))
     u = py.func("utils.normalise_path")
-    ok = "base_dir / os.path.expandvars(path)" in ast.unparse(u)
-    rep.ob("normalise_path joins onto the base directory (absolute inputs win)", ok, "", py.nloc(u))
+    p0, p1 = [a.arg for a in u.args.args][:2]
+    def names(e):
+        return {x.id for x in ast.walk(e) if isinstance(x, ast.Name)}
+    joins = any(isinstance(b, ast.BinOp) and isinstance(b.op, ast.Div) and p0 in names(b.left) and p1 in names(b.right) for b in ast.walk(u)) or \
+        any(isinstance(c, ast.Call) and call_name(c).split(".")[-1] in ("joinpath", "join", "Path", "PurePath") and
+            p0 in names(c) and p1 in names(c) and (not c.args or p1 not in names(c.args[0])) for c in ast.walk(u))
+    rep.ob("normalise_path joins onto the base directory (absolute inputs win)", joins,
+           f"`{p0} / {p1}`: a relative path is rooted at the base directory, an absolute one replaces it", py.nloc(u))
     if n == 0:
         raise AnalysisError("normalise_paths: no direct path assignments found")
 
@@ -435,7 +472,12 @@ def r8_metadata_grammar(ctx, rep):
     w = rx.subset_witness(ref_more, C)
     rep.ob("every line indented >= 4 is a continuation line", w is None, "" if w is None else f"`{w}`", py.nloc(cnode), witness=w)
     fn = py.func("utils.meta_preprocessor")
-    ok = "key = m1.group('key').lower().strip()" in ast.unparse(fn)
+    def methods(e):
+        return [c.func.attr for c in ast.walk(e) if isinstance(c, ast.Call) and isinstance(c.func, ast.Attribute)]
+    ok = any(isinstance(a, ast.Assign) and any(isinstance(c, ast.Call) and isinstance(c.func, ast.Attribute) and c.func.attr == "group"
+                                               and c.args and isinstance(c.args[0], ast.Constant) and c.args[0].value == "key"
+                                               for c in ast.walk(a.value))
+             and any(m in ("lower", "casefold") for m in methods(a.value)) for a in ast.walk(fn))
     rep.ob("metadata keys are lower-cased", ok, "", py.nloc(fn))
 
 
